@@ -2,12 +2,13 @@
    other than [ceqb]; Paramcoq's parametricity translation turns that into a
    free theorem, instantiated here with the graph of an injective renaming. *)
 From Coq Require Import List Bool NArith.
-From PTA Require Import Names Graph Search Rule Builder Layer.
+From PTA Require Import Names Graph Search Rule Builder Layer Diagram.
 From Param Require Import Param.
 Import ListNotations.
 
 Parametricity Recursive layer_assert_applies qualified.
 Parametricity Recursive verdict qualified.
+Parametricity Recursive diagram_apply qualified.
 
 Notation list_R := Coq_o_Init_o_Datatypes_o_list_R.
 Notation bool_R := Coq_o_Init_o_Datatypes_o_bool_R.
@@ -25,6 +26,7 @@ Notation outcome_R := PTA_o_Model_o_Rule_o_outcome_R.
 Notation lfilt_R := PTA_o_Model_o_Layer_o_lfilt_R.
 Notation lline_R := PTA_o_Model_o_Layer_o_lline_R.
 Notation loutcome_R := PTA_o_Model_o_Layer_o_loutcome_R.
+Notation pdeps_R := PTA_o_Model_o_Diagram_o_pdeps_R.
 
 (* ---- generic glue: relations that are graphs of functions ---- *)
 Lemma bool_R_refl b : bool_R b b.
@@ -212,6 +214,29 @@ Proof.
   apply loutcome_bwd.
   apply (PTA_o_Model_o_Layer_o_layer_assert_applies_R A B RR ea eb ceqb_RR rm1 rm2 rmatch_RR
            _ _ (graph_fwd g) _ _ (larch_fwd a) _ _ (cfg_fwd c)).
+Qed.
+
+(* ---- diagram rules ---- *)
+Definition rn_pdeps (d : @pdeps A) : @pdeps B :=
+  {| pd_mods := map rn_name (pd_mods d); pd_rel := map rn_edge (pd_rel d) |}.
+Lemma pdeps_fwd d : pdeps_R A B RR d (rn_pdeps d).
+Proof.
+  destruct d as [ms rel]. unfold rn_pdeps. cbn [pd_mods pd_rel]. constructor.
+  - apply list_R_map. exact name_fwd.
+  - apply list_R_map. intros [a b]. unfold rn_edge. cbn [fst snd]. constructor; apply name_fwd.
+Qed.
+
+Lemma optname_fwd (o : option (list A)) : option_R _ _ (list_R A B RR) o (option_map rn_name o).
+Proof. destruct o; simpl; constructor. apply name_fwd. Qed.
+
+(* the verdict and report of a diagram rule (both modes, with or without base module) are invariant under the renaming *)
+Theorem diagram_rename g only base d :
+  diagram_apply eb rm2 (rn_graph g) only (option_map rn_name base) (rn_pdeps d)
+  = rn_outcome (diagram_apply ea rm1 g only base d).
+Proof.
+  apply outcome_bwd.
+  apply (PTA_o_Model_o_Diagram_o_diagram_apply_R A B RR ea eb ceqb_RR rm1 rm2 rmatch_RR
+           _ _ (graph_fwd g) _ _ (bool_R_refl only) _ _ (optname_fwd base) _ _ (pdeps_fwd d)).
 Qed.
 
 End Rename.
